@@ -180,7 +180,73 @@ def driver(case, api):
         if out["o"] == "value":
             res.append({"id": case["id"] + "#ret", "kind": "ret", "v": prune(out["v"])})
         return res
+    if k == "ret_probe":
+        # every receiver kind handed to the embedder through eval and through get, bare and nested
+        res = []
+        for name, expr in RECV.items():
+            for form, src, getname in (("eval", "var G = %s; G" % expr, None), ("get", "var G = %s; 0" % expr, "G"),
+                                       ("nested", "var G = %s; ({a: [G], b: G})" % expr, None)):
+                ctx = api.Context(time_limit=5.0)
+                ctx.set("hostfn", lambda *a: 1)
+                try:
+                    v = ctx.eval(src)
+                    if getname:
+                        v = ctx.get(getname)
+                    w = embed_wire(v)
+                except Exception as e:
+                    w = {"k": "none"}       # an exception instead of a value: C04 judges its class, not C03
+                res.append({"id": "ret:%s:%s" % (name, form), "kind": "ret", "v": embed_ok(prune(w))})
+        return res
+    if k == "call_grid":
+        # every function-valued property found on the receiver (candidate names from the spec's list + harvest),
+        # called with argument vectors over the value kinds: the kind of every result a script can hold
+        recv = case["recv"]
+        ARGS = ["undefined", "null", "1", "'ab'", "true", "({k:1})", "[1,2]", "(function(){ return 1 })", "-1", "'0'"]
+        ctx = api.new_context(time_limit=10.0)
+        ctx.set("hostfn", lambda *a: 1)
+        kinds = {}
+        ctx.set("__kind", lambda tag, v: (kinds.setdefault((tag, kind_name(v)), 1), None)[1])
+        ctx.set("__names", list(case["names"]))
+        src = ("var R = %s; var A = [%s]; var fns = []; for (var i=0;i<__names.length;i++) { var nm=__names[i]; var f; "
+               "try { f = R[nm] } catch (e) { continue } if (typeof f === 'function') fns.push(nm) } "
+               "for (var i=0;i<fns.length;i++) { var nm = fns[i]; "
+               "for (var a=-1;a<A.length;a++) for (var b=-1;b<(a<0?0:A.length);b++) { "
+               "var R2 = %s; try { var r = (a<0) ? R2[nm]() : (b<0) ? R2[nm](A[a]) : R2[nm](A[a], A[b]); __kind(nm, r) } catch (e) { __kind(nm, e) } } } fns.length"
+               % (RECV[recv], ",".join(ARGS), RECV[recv]))
+        out = api.eval_outcome(ctx, src, wall=120.0, cap=30_000_000)
+        return [{"id": "callgrid:%s" % recv, "kind": "trace", "seen": [{"k": kk, "at": tag} for (tag, kk) in sorted(kinds)],
+                 "o": out["o"], "nfns": out.get("v", {}).get("w") if out["o"] == "value" else None}]
     raise ValueError(k)
+
+
+def kind_name(v):
+    w = wire.to_wire(v, depth=11)
+    return w["k"] if w["k"] != "hostval" else "hostval:" + w.get("t", "")
+
+
+def embed_ok(w):
+    return w
+
+
+def embed_wire(v, depth=0):
+    """classify a value handed to the embedder: JSON-like Python data, handles of JavaScript objects/functions, or
+    an exposed host callable are fine; anything else (bytearray, interpreter structures, ...) is a host value"""
+    import microjs.values as V
+    if v is None:
+        return {"k": "null"}
+    if isinstance(v, (bool, int, float, str)):
+        return wire.py_to_wire(v)
+    if isinstance(v, (V.JSFunction, V.JSObject)) or v is V.UNDEFINED or v is V.NULL:
+        return wire.to_wire(v, depth=10)
+    if isinstance(v, list) and depth < 6:
+        return {"k": "arr", "e": [embed_wire(x, depth + 1) for x in v[:8]]}
+    if isinstance(v, dict) and depth < 6:
+        if not all(isinstance(kk, str) for kk in v):
+            return {"k": "hostval", "t": "dict with non-string key"}
+        return {"k": "obj", "p": [{"n": wire.units(kk)[:20], "v": embed_wire(x, depth + 1)} for kk, x in list(v.items())[:8]]}
+    if callable(v) and type(v).__name__ in ("function", "method", "builtin_function_or_method", "JSBoundMethod"):
+        return {"k": "native"}
+    return {"k": "hostval", "t": type(v).__name__}
 
 
 def prune(w, depth=0):
